@@ -838,7 +838,7 @@ def recursively_save_to_h5_file(h5_file, path, dictionary):
     def _save_flattened(g, prefix, d):
         for key, value in d.items():
             full_key = f"{prefix}.{key}" if prefix else key
-            if isinstance(value, dict):
+            if isinstance(value, dict) and value:
                 _save_flattened(g, full_key, value)
             else:
                 try:
